@@ -221,6 +221,10 @@ class AMF:
             need(0x12 in opt,'PDU session ID IE'); psi=opt[0x12][0]; s.soft(1<=psi<=15,f'PDU session id {psi} outside 1..15'); need(sm[0]==0x2e and sm[1]==psi,f'5GSM header session id {sm[1]} != {psi}'); s.soft(1<=sm[2]<=254,f'PTI {sm[2]} unassigned in 5GSM message {sm[3]:#x}')
             if sm[3]==0xc1:
                 need(ue.state=='registered','establishment before registration complete'); need(opt.get(8)==1,'request type initial')
+                if 'sst' in s.cfg:
+                    exp=bytes([s.cfg['sst']&255])+bytes.fromhex(s.cfg.get('sd',''))
+                    need(0x22 in opt and bytes(opt[0x22])==exp, f"S-NSSAI {bytes(opt.get(0x22,b'')).hex()} != configured {exp.hex()}")
+                if 'dnn' in s.cfg: need(0x25 in opt and bytes(opt[0x25])[1:]==s.cfg['dnn'].encode(),'DNN')
                 ue.psi=psi; ue.ip=bytes([10,45,s.R.randrange(256),s.R.randrange(1,255)]); ue.teid=bytes(s.R.randrange(256) for _ in range(4)); ue.upf=bytes([192,168,s.R.randrange(256),s.R.randrange(1,255)])
                 qos=bytes(s.R.randrange(256) for _ in range(s.R.choice([9,40,300])))
                 acc=bytes([0x2e,psi,sm[2],0xc2,0x11])+len(qos).to_bytes(2,'big')+qos+bytes([6,1,0,100,1,0,100])
